@@ -10,6 +10,7 @@
 From Coq Require Import List NArith ZArith.
 Require Import Base Kinds Schema Varint Utf8 Sval Ser De AvroValue Encoding Denote Wf SerProofs SerLeafProofs SerSoundProofs.
 Require Import RecordProofs DeSafetyProofs SerSafetyProofs.
+Require Import DenotesDefs SerDenotesProofs.
 Import ListNotations.
 
 Theorem C02_canonical : forall Sc n v st,
@@ -46,6 +47,31 @@ Theorem C02_sound_node : forall Sc n sv st st',
   ser Sc n sv st = (Ok tt, st') ->
   exists e, layout_ok e = true /\ conforms Sc n (erase e) = true /\ s_out st' = s_out st ++ encode_e Sc n e.
 Proof. exact ser_sound. Qed.
+(* FUNCTIONAL CORRECTNESS -- "of that same logical value": [denotes] (proofs/DenotesDefs.v: a
+   specification written from the serde data model and the Avro specification, not from the
+   serializer) relates a presentation to the logical values it stands for under a node: any integer
+   width -> the integer / the symbol index / the unscaled decimal; str -> string, symbol, fixed,
+   decimal text, uuid; seq/tuple -> array, duration triple, bytes; struct/map -> record BY FIELD NAME
+   in any order with nullable fields omitted, or map; under a union, by the selecting name when there
+   is one, otherwise any branch under which it has a reading. The bytes written are an encoding of A
+   VALUE THE PRESENTATION DENOTES (lossy = true admits the two documented lossy readings: decimal
+   strings rounded half away from zero to the schema's scale, f64 narrowed for a float node).
+   [sval_ranged]: integers fit their Rust type, float bits fit 32 / 64 bits. *)
+Theorem C02_denotes : forall Sc root sv slow bs,
+  schema_lim Sc = true -> sval_typed sv = true -> sval_ranged sv = true ->
+  fnode_at Sc 0 = Some root -> to_datum Sc slow sv = Ok bs ->
+  exists e, layout_ok e = true /\ conforms Sc root (erase e) = true /\ encode_e Sc root e = bs /\
+            denotes true Sc root sv (erase e).
+Proof. exact SerDenotesProofs.C02_denotes. Qed.
+(* the canonical presentation denotes exactly its value (the relation is not vacuous), scalar readings
+   are unique, a presentation by name has one reading where a type-directed one may have several *)
+Theorem C02_denotes_present : forall Sc n v,
+  conforms Sc n v = true -> SerProofs.value_limits Sc n v = true -> denotes false Sc n (present Sc n v) v.
+Proof. exact denotes_present. Qed.
+Check denotes_ambiguous.
+Check denotes_named_unique.
+Check decimal_rounding_example.
+
 (* the side conditions are needed: a fixed decimal of 17 bytes is written (sign-extended) although
    the crate's own decoder stops at 16; a str that is not UTF-8 or a map value without a key
    cannot come from safe Rust *)
